@@ -1,10 +1,11 @@
 CONSTANTS K = 2
-TYS = {"Z"}
-PHS = {0,1,4}
-ETS = {"H"}
+TYS = {"Z","X"}
+PHS = {0,1,2,4}
+ETS = {"N","H"}
 NB = 2
 VARS = {0,1}
 BB = FALSE
+STRAT = "full"
 INIT Init
 NEXT Next
 INVARIANT Sound
